@@ -65,7 +65,8 @@ FLAGS = {
                 cflags=["-O1", "-g", "-fPIC", "-w", "-fno-strict-aliasing",
                         "-fsanitize=address,undefined",
                         "-fno-omit-frame-pointer", "-shared-libasan",
-                        "-fsanitize-recover=all", "-fno-sanitize=alignment"],
+                        "-fsanitize-recover=all", "-fno-sanitize=alignment",
+                        "-D_GLIBCXX_ASSERTIONS"],
                 ldflags=["-shared", "-fsanitize=address,undefined",
                          "-shared-libasan"]),
 }
